@@ -185,18 +185,40 @@ theorem stageHttpRequest_total (r : LogRec) (hs : List Hdr) (payload : Bytes) (h
 theorem logDecode_fixed (b : Bytes) : logDecode .fixed b = .ok (decodeReplace b) := by
   simp [logDecode, Variant.fixed, pure, Except.pure]
 
-theorem stageHttpResponse2_total (r : LogRec) (b : Bytes) : ∃ ev, r.stageHttpResponse2 .fixed (some b) = .ok ev := by
-  simp only [LogRec.stageHttpResponse2]
+theorem respPayloadText_total (r : LogRec) (b : Bytes) : ∃ up, r.respPayloadText .fixed b = .ok up := by
+  simp only [LogRec.respPayloadText, logDecode_fixed, bind, Except.bind, pure, Except.pure]
   split
   · exact ⟨_, rfl⟩
   · split
-    · simp only [logDecode_fixed, bind, Except.bind, pure, Except.pure]
-      split
-      · exact ⟨_, rfl⟩
-      · split
-        · split <;> exact ⟨_, rfl⟩
-        · exact ⟨_, rfl⟩
+    · split <;> exact ⟨_, rfl⟩
     · exact ⟨_, rfl⟩
+
+/-- with a maximum length n > 0 the logged payload text has at most n + 3 characters -/
+theorem respPayloadText_bounded (r : LogRec) (b : Bytes) (n : Nat) (hn : n ≠ 0) (hm : r.httpMax = some n)
+    (up : Str) (h : r.respPayloadText .fixed b = .ok up) : up.length ≤ n + 3 := by
+  simp only [LogRec.respPayloadText, logDecode_fixed, hm, bind, Except.bind, pure, Except.pure] at h
+  split at h
+  · simp only [Except.ok.injEq] at h; subst h; simp
+  · split at h
+    · simp only [Except.ok.injEq] at h
+      subst h
+      have := decodeReplace_length_le (b.take n)
+      simp only [List.length_append, List.length_take] at this ⊢
+      have h3 : "...".toList.length = 3 := by decide
+      omega
+    · rename_i hc
+      simp only [Except.ok.injEq] at h
+      subst h
+      have := decodeReplace_length_le b
+      have : ¬ b.length > n := fun hgt => hc ⟨hn, hgt⟩
+      omega
+
+theorem stageHttpResponse2_total (r : LogRec) (b : Bytes) : ∃ ev, r.stageHttpResponse2 .fixed (some b) = .ok ev := by
+  obtain ⟨up, hup⟩ := respPayloadText_total r b
+  simp only [LogRec.stageHttpResponse2, hup, bind, Except.bind, pure, Except.pure]
+  split
+  · exact ⟨_, rfl⟩
+  · split <;> exact ⟨_, rfl⟩
 
 /-- a list result whose first element has a `path` attribute has one on every element -/
 def viewOk : View → Bool
